@@ -328,6 +328,9 @@ func runHistory(w *world, c hcfg) {
 					default:
 						in.Len = 8 + rng.Intn(600)
 					}
+					if hl := len(fmt.Sprintf("v%d:", in.Val)); in.Len < hl {
+						in.Len = hl // the payload must carry its whole identifying header (payloads are unique)
+					}
 					if rng.Intn(12) == 0 {
 						in.Cookie = cookieB // a writer with the wrong cookie
 					}
@@ -466,7 +469,7 @@ func checkHistory(c hcfg, all []recOp) {
 	}
 	r.Count("same_key_overlapping_pairs", int64(overlaps))
 	timeout := 30 * time.Second
-	res := porcupine.CheckOperationsTimeout(model(c.Compact != 0), ops, timeout)
+	res := porcupine.CheckOperationsTimeout(model(c.Compact != 0 || c.Reopen), ops, timeout)
 	r.Eval(1)
 	r.Count("histories_checked", 1)
 	switch res {
@@ -479,7 +482,7 @@ func checkHistory(c hcfg, all []recOp) {
 	case porcupine.Illegal:
 		// name the key whose partition is not linearizable
 		badKey := -1
-		m := model(c.Compact != 0)
+		m := model(c.Compact != 0 || c.Reopen)
 		for _, part := range m.Partition(ops) {
 			if porcupine.CheckOperationsTimeout(m, part, timeout) == porcupine.Illegal {
 				badKey = part[0].Input.(input).Key
@@ -516,6 +519,43 @@ func storageSite(rep lib.RaceReport) string {
 	return strings.Join(parts, " | ")
 }
 
+// raceFamily names the unlocked actor of a storage race report from the frames of its two stacks.
+// The families are the ones observed on the unchanged tree (notes/C38.md); everything else is "other".
+func raceFamily(rep lib.RaceReport) string {
+	has := func(sub string) bool {
+		for _, stk := range rep.Stacks[:2] {
+			for _, fn := range stk {
+				if strings.Contains(fn, sub) {
+					return true
+				}
+			}
+		}
+		return false
+	}
+	innermost := func(sub string) bool {
+		for _, stk := range rep.Stacks[:2] {
+			for _, fn := range stk {
+				if strings.Contains(fn, "weed/storage") {
+					if strings.HasSuffix(fn, sub) {
+						return true
+					}
+					break
+				}
+			}
+		}
+		return false
+	}
+	switch {
+	case has("VolumeFileScanner4Vacuum).VisitNeedle"):
+		return "scan-compact-reads-needle-map-without-volume-lock"
+	case has("storage.(*Volume).CommitCompact"):
+		return "commit-reload-vs-access-outside-volume-lock"
+	case innermost("storage.(*Volume).Version"):
+		return "version-getter-writes-superblock"
+	}
+	return "other"
+}
+
 func judgeRaces() {
 	reps := lib.ParseRaceLogs(lib.RaceLogPath())
 	r.Count("race_reports_total", int64(len(reps)))
@@ -534,7 +574,7 @@ func judgeRaces() {
 			if len(text) > 6000 {
 				text = text[:6000]
 			}
-			r.Violation(lib.Sig{"op": "race", "class": "data-race", "site": site}, map[string]interface{}{"msg": "race detector report with both stacks in weed/storage", "site": site, "report": text})
+			r.Violation(lib.Sig{"op": "race", "class": "data-race", "site": site, "family": raceFamily(rep)}, map[string]interface{}{"msg": "race detector report with both stacks in weed/storage", "site": site, "report": text})
 		} else {
 			outside[rep.Signature()]++
 		}
@@ -563,14 +603,9 @@ func genCfg(i int, rep int) hcfg {
 	c.Keys = 2 + rng.Intn(3)
 	if c.Path == "batched" && i%8 == 1 {
 		// many writers, one or two ops each: the worker forms multi-request batches
-		c.Goroutines = 32 + rng.Intn(33)
+		c.Goroutines = 24 + rng.Intn(41) // 24..64 writers in flight together
 		c.OpsPerG = 1
-		if c.Goroutines < 40 {
-			c.OpsPerG = 2
-		}
-		if c.Goroutines*c.OpsPerG > 64 {
-			c.OpsPerG = 1
-		}
+		c.Keys = 4 // keeps the number of fully concurrent operations per key within what the checker decides quickly
 	} else {
 		c.Goroutines = 4 + rng.Intn(13)
 		c.OpsPerG = 60 / c.Goroutines
@@ -590,9 +625,9 @@ func genCfg(i int, rep int) hcfg {
 
 func main() {
 	r = lib.Start("C38", "exploration")
-	r.SetRule("short concurrent histories (4-64 goroutines, <=64 ops + final reads) of write(unique payload)/delete/read on 2-4 keys of one real volume through storage.Store, immediate and batched (SetStopping+fsync) write paths, memory and leveldb maps, with Compact/Compact2+CommitCompact running concurrently in 3 of 10 histories and a store reopen before the final reads in 1 of 5; each history checked with porcupine (per-key register model, 30 s timeout); race-detector reports with both stacks in weed/storage are violations. distinct = distinct recorded history (configuration, seed, number of ops, number of overlapping same-key pairs); non-trivial = linearizable history with at least one successful write and at least one pair of overlapping operations on the same key")
+	r.SetRule("short concurrent histories (4-16 goroutines x <=8 ops, or 24-64 single-op goroutines in the batch-forming variant; <=64 ops + final reads) of write(unique payload)/delete/read on 2-4 keys of one real volume through storage.Store, immediate and batched (SetStopping+fsync) write paths, memory and leveldb maps, with Compact/Compact2+CommitCompact running concurrently in 3 of 10 histories and a store reopen before the final reads in 1 of 5; each history checked with porcupine (per-key register model, 30 s timeout); race-detector reports with both stacks in weed/storage are violations. distinct = distinct recorded history (configuration, seed, number of ops, number of overlapping same-key pairs); non-trivial = linearizable history with at least one successful write and at least one pair of overlapping operations on the same key")
 	r.Assume("operation intervals are taken from one atomic counter incremented immediately before the call and after the return of the Store method")
-	r.Assume("register model: write over a tombstone with a different cookie may be answered either way (DESIGN §8 #38); in histories with a concurrent compaction 'not found' is accepted where the model says 'deleted' (the commit forgets tombstones); zero-length payloads are not used (their known defects belong to C01)")
+	r.Assume("register model: write over a tombstone with a different cookie may be answered either way (DESIGN §8 #38); in histories with a concurrent compaction or a store reopen 'not found' is accepted where the model says 'deleted' (the commit, and the leveldb map regenerated on reopen, forget tombstones); zero-length payloads are not used (their known defects belong to C01)")
 	r.Assume("the schedules are those the Go scheduler produced on this machine; no schedule is forced")
 
 	if r.Replay != "" {
@@ -617,7 +652,7 @@ func main() {
 		r.Finish(0)
 	}
 
-	nh, reps := r.Pick(200, 5000), r.Pick(3, 5)
+	nh, reps := r.Pick(200, 2000), r.Pick(3, 3)
 	for rep := 0; rep < reps && r.Violations() < 10; rep++ {
 		worlds := map[string]*world{}
 		for i := 0; i < nh && r.Violations() < 10; i++ {
